@@ -12,8 +12,16 @@ import (
 	"golang.org/x/tools/go/ssa/ssautil"
 )
 
+// repoDir is /repo. GOSYM_REPO overrides it for the author's own experiments against a scratch
+// worktree (seeded-change testing while /repo is in use); no registered command sets it.
+var repoDir = func() string {
+	if d := os.Getenv("GOSYM_REPO"); d != "" {
+		return d
+	}
+	return "/repo"
+}()
+
 const (
-	repoDir    = "/repo"
 	modulePath = "github.com/FollowTheProcess/spok"
 	overlayDir = "zzverif" // virtual directory inside /repo that receives /verif/harness
 )
